@@ -242,6 +242,18 @@ func (g *gen) exts(forSet bool) []*gnmi_ext.Extension {
 	if g.chance(15) {
 		xs = append(xs, regExt(configapi.TargetVersionOverridesID, garbage[g.r.Intn(len(garbage))]))
 	}
+	if g.chance(12) {
+		// an overrides extension that decodes to NO entries: an empty payload, or unknown fields only
+		xs = append(xs, regExt(configapi.TargetVersionOverridesID, [][]byte{{}, {0x78, 0x01}, {0x7a, 0x01, 'x'}}[g.r.Intn(3)]))
+	}
+	if g.chance(10) {
+		// one of gNMI's well-known extensions AHEAD of the registered ones
+		if g.chance(2) {
+			xs = append([]*gnmi_ext.Extension{{Ext: &gnmi_ext.Extension_MasterArbitration{MasterArbitration: &gnmi_ext.MasterArbitration{ElectionId: &gnmi_ext.Uint128{Low: 1}}}}}, xs...)
+		} else {
+			xs = append([]*gnmi_ext.Extension{{Ext: &gnmi_ext.Extension_History{History: &gnmi_ext.History{}}}}, xs...)
+		}
+	}
 	if g.chance(15) {
 		xs = append(xs, regExt(gnmi_ext.ExtensionID(g.r.Intn(200)), garbage[g.r.Intn(len(garbage))]))
 	}
